@@ -8,6 +8,7 @@ EXTENDS Cases
 
 Walked(g) == {"audience", "attachment", "icon", "image", "context", "generator", "attributedTo", "preview", "tag"}
              \cup (IF g = "Activity" THEN {"object", "actor", "target"} ELSE {})
+             \cup (IF g \in {"IntransitiveActivity", "Question"} THEN {"actor", "target"} ELSE {})   \* activities too: they have no object
 Private == {"bto", "bcc"}
 
 RECURSIVE CleanV(_), CleanChild(_)
